@@ -68,17 +68,36 @@ type Map struct {
 }
 
 type Chan struct {
-	buf    []Value
-	cap    int
-	closed bool
-	id     int
+	buf                                 []Value
+	cap                                 int
+	closed                              bool
+	id                                  int
 	pendingSync, recvCount, recvWaiting int
+}
+
+// LazySlice is a zero-initialised slice of symbolic (or very large) length: a write log
+// instead of storage. Only len, indexing, element load and element store are supported.
+type LazySlice struct {
+	length *Term // BV64
+	elem   types.Type
+	writes []lazyWrite
+}
+
+type lazyWrite struct {
+	idx *Term // BV64
+	val Value
+}
+
+type LazyPtr struct {
+	ls   *LazySlice
+	idx  *Term
+	path []int // field path inside the element
 }
 
 type rangeIter struct {
 	// string
-	str  Value
-	pos  int
+	str Value
+	pos int
 	// map
 	m    *Map
 	snap []*mapEntry
